@@ -580,6 +580,9 @@ class Universe:
         U = self
         c = [U.len(t) >= 0]
         K = U.K
+        # the extra constants of the class sort only ever name what a class object *denotes*
+        # (collections.abc.Sequence itself, ...); no object is an instance of them
+        c.extend(U.cls(t) != K[e[0]] for e in EXTRA_DENOTABLE)
         c.append(z3.Implies(U.cls(t) == K['bool'], z3.And(U.ival(t) >= 0, U.ival(t) <= 1)))
         # truthiness of the classes the generated code may test with `not x`
         c.append(z3.Implies(U.sized(t), U.truthy(t) == (U.len(t) != 0)))
@@ -688,6 +691,7 @@ class Universe:
         K = U.K
         ax = [
             z3.ForAll([o], U.len(o) >= 0, patterns=[U.len(o)]),
+            z3.ForAll([o], z3.And([U.cls(o) != K[e[0]] for e in EXTRA_DENOTABLE]), patterns=[U.cls(o)]),
             z3.ForAll([o], z3.Implies(U.cls(o) == K['bool'], z3.And(U.ival(o) >= 0, U.ival(o) <= 1)),
                       patterns=[U.ival(o)]),
             z3.ForAll([o, i], z3.Implies(U.cls(o) == K['str'],
